@@ -1071,6 +1071,12 @@ SCEN["output"] = {
         ("csv", "list(X([(1, 2), (3, 4)], format_=('{:.2f}', '{:.0f}'), header_fields=('a', 'b'), "
                 "header='{},{}', row_end=';'))", None),
         ("plain", "list(X([(1, 2)]))", None),
+        # formats that are given but empty (falsy, not None)
+        ("empty-tuple-format", "list(X([(1, 2), (3, 4)], format_=(), row_start='<', "
+                               "row_end='>'))", None),
+        ("empty-list-format", "list(X([(1,)], format_=[]))", None),
+        ("empty-string-format", "list(X([(1, 2)], format_=''))", None),
+        ("no-rows", "list(X([], format_=(), header='h', footer='f'))", None),
         ("html", "list(X([(1, 2)], header='<table>', row_start='<tr><td>', "
                  "row_separator='</td><td>', row_end='</td></tr>', footer='</table>'))", None),
     ],
